@@ -390,11 +390,13 @@ func TestVerif_C06(t *testing.T) {
 		defer wg.Done()
 		bulk = c06RunBulk(run)
 	}()
-	c06Fidelity(run) // before the bulk's witnesses: the run keeps a bounded number of witness files
-	c06Concurrency(run)
+	// this process's phases also run side by side (separate instances and worlds)
 	w0 := vfNewWorld(t)
 	defer w0.Close()
-	c06RacePass(run, w0)
+	wg.Add(2)
+	go func() { defer wg.Done(); c06Concurrency(run) }()
+	go func() { defer wg.Done(); c06RacePass(run, w0) }()
+	c06Fidelity(run) // reports before the bulk's witnesses: the run keeps a bounded number of witness files
 	wg.Wait()
 	if bulk == nil {
 		t.Fatalf("c06: bulk did not complete")
